@@ -90,4 +90,4 @@ def generate_cvc3(icc_cvc3: bytes, track_template: bytes, atc: bytes, un: bytes)
     block = iv_cvc3 + un + atc
     cvc3 = _tools.encrypt_tdes_ecb(icc_cvc3, block)[-2:]
 
-    return str(int(cvc3.hex(), 16))
+    return str(int(cvc3.hex(), 16)).zfill(5)
